@@ -116,6 +116,17 @@ class Abs(Evaluator):
             return self._isinstance(e)
         if name == 'len' and len(e.args) == 1:
             return len(self.ev(e.args[0]))
+        if name in ('all', 'any') and len(e.args) == 1 and isinstance(e.args[0], (ast.GeneratorExp, ast.ListComp)) \
+                and len(e.args[0].generators) == 1 and isinstance(e.args[0].generators[0].target, ast.Name):
+            g = e.args[0].generators[0]
+            saved = dict(self.env)
+            vals = []
+            for v in list(self.ev(g.iter)):
+                self.env[g.target.id] = v
+                if all(self.ev(c) for c in g.ifs):
+                    vals.append(bool(self.ev(e.args[0].elt)))
+            self.env = saved
+            return all(vals) if name == 'all' else any(vals)
         if name in ('list', 'set', 'tuple', 'sorted') and len(e.args) == 1:
             return list(self.ev(e.args[0]))
         if name in self.funcs:
@@ -1298,7 +1309,8 @@ def rule_porttable(repo):
      r.bad(m, fq, cons, "the traversal from the net writer does not visit/expand every connected signal: port-direction "
            "violations deeper in the net are not checked", lp.lineno))
     H = _mk_hier()
-    pairs = [('same', 'A', 'A'), ('same', 'A1', 'A1'),
+    me_nets = _self_name(f)      # the method's self is the elaboration top: its own adjacency table is NOT the parent's
+    pairs = [('same', 'A', 'A'), ('same', 'A1', 'A1'), ('same', 'A11', 'A11'),     # looped component at depth 1, 2, 3
              ('reader-host-is-parent', 'A1', 'A'), ('reader-host-is-parent', 'A', 'T'), ('reader-host-is-parent', 'A11', 'A1'),
              ('writer-host-is-parent', 'A', 'A1'), ('writer-host-is-parent', 'T', 'A'), ('writer-host-is-parent', 'A1', 'A11'),
              ('siblings', 'A1', 'A2'), ('siblings', 'A', 'B'), ('siblings', 'A2', 'A1'),
@@ -1321,7 +1333,7 @@ def rule_porttable(repo):
                         if loopback:
                             where = wh.fields['get_parent_object()'] if in_parent else wh
                             where.fields['_dsl'].fields['adjacency'].update({uo: [vo], vo: [uo]})
-                        ev = Abs({u: uo, v: vo, whost: wh, rhost: rh}, ancestors=anc)
+                        ev = Abs({u: uo, v: vo, whost: wh, rhost: rh, me_nets: H['T']}, ancestors=anc)
                         out = run_block(ev, [chain])
                         r.evaluations += 1
                         want = _nets_expected(rel, ucls, vcls, in_parent)
@@ -2040,6 +2052,8 @@ MUTANTS = [
        "              valid = isinstance( u, OutPort ) and \\\n                      isinstance( v, (OutPort, Wire, InPort) )", 'R-C09-porttable'),
     _m('sibling-any-driver', L3, "              valid = isinstance( u, OutPort ) and isinstance( v, InPort )", "              valid = isinstance( u, Signal ) and isinstance( v, InPort )", 'R-C09-porttable'),
     _m('relation-direction-confused', L3, "            elif rhost == whost.get_parent_object():", "            elif rhost.get_parent_object() == whost:", 'R-C09-porttable'),
+    _m('loopback-looked-up-at-top', L3, "                  u_connected_in_parent = v in parent._dsl.adjacency and u in parent._dsl.adjacency[v]\n                  v_connected_in_parent = u in parent._dsl.adjacency and v in parent._dsl.adjacency[u]",
+       "                  u_connected_in_parent = v in s._dsl.adjacency and u in s._dsl.adjacency[v]\n                  v_connected_in_parent = u in s._dsl.adjacency and v in s._dsl.adjacency[u]", 'R-C09-porttable'),
     _m('loopback-inverted', L3, "                  if not u_connected_in_parent:", "                  if u_connected_in_parent:", 'R-C09-porttable'),
     _m('dfs-not-expanded', L3, "            S.append( v )\n", "", 'R-C09-porttable'),
     _m('same-host-inport-driven', L3, "              valid = isinstance( u, (Signal, Const) ) and \\\n                      isinstance( v, (OutPort, Wire) )",
